@@ -90,14 +90,16 @@ Proof.
   destruct (ready_pass w l) as [w1 ch] eqn:P. destruct (ready_pass_keeps_ready l w w1 ch P j Hj) as [A B].
   destruct ch; [rewrite IH by assumption; assumption | assumption].
 Qed.
+Lemma fold_merge_keeps : forall l w j, ~ In j l -> get (fold_left (fun w id => fst (merge w id)) l w) j = get w j.
+Proof.
+  induction l as [|id r IH]; intros w j Hj; simpl; [reflexivity|].
+  destruct (merge w id) as [w1 ok] eqn:M. simpl. destruct (merge_ext _ _ _ _ M) as [_ Hother].
+  rewrite IH by (intro Hc; apply Hj; right; assumption). apply Hother. intros ->. apply Hj. left. reflexivity.
+Qed.
 Lemma class_changed_keeps : forall n corder w j, inherits w j n = false -> get (class_changed w n corder) j = get w j.
 Proof.
-  intros n. unfold class_changed. induction corder as [|id r IH]; intros w j Hj; simpl; [reflexivity|].
-  destruct (inherits w id n) eqn:Hi.
-  - destruct (merge w id) as [w1 ok] eqn:M. simpl. destruct (merge_ext _ _ _ _ M) as [_ Hother].
-    assert (j <> id) as Hne by (intros ->; congruence).
-    rewrite IH; [apply Hother; assumption|]. unfold inherits. rewrite (Hother j Hne). exact Hj.
-  - apply IH. assumption.
+  intros n corder w j Hj. unfold class_changed. apply fold_merge_keeps.
+  intro Hc. apply stale_order_In in Hc. destruct Hc as [_ Hc]. congruence.
 Qed.
 
 Lemma defclass_gfs : forall w n supers slots ro co, Inv w -> g_defclass w n supers slots ro co = true ->
